@@ -21,6 +21,7 @@ def run(tier, wd):
     tc.add_tree(rep, wd, binpath, alphabet, ["continue", "exit", "panic"], "c07-ints", T.ints_tree(), trs, rows)
     # a string-valued option next to a lone dash, an Int argument, folded groups in front of a sub command name
     tc.add_tree(rep, wd, binpath, alphabet, ["continue", "exit", "panic"], "c07-cluster", T.cluster_tree(), trs, rows)
+    tc.add_tree(rep, wd, binpath, alphabet, ["continue", "exit", "panic"], "c07-alias", T.alias_tree(), trs, rows)
     kinds, by_level = {}, {}
     nontriv = 0
     for c, r in rows:
